@@ -255,7 +255,9 @@ class Harness:
         self.inj = save
         XA = np.concatenate([s[0] for s in self.sets]); XB = np.concatenate([s[1] for s in self.sets])
         ref, de = frac.welch(XA, XB)
-        assert np.allclose(self.seq[-1][de], ref[de], rtol=1e-9), 'sequential result does not match the definition'
+        # (the oracle of the schedules is the free-running sequential result; that one must itself be the Welch statistic - reported by _sched as a violation, not as a harness failure)
+        self.seq_is_welch = bool(np.allclose(self.seq[-1][de], ref[de], rtol=1e-9))
+        self.seq_msg = 'free-running result %s, Welch statistic of all traces %s' % (self.seq[-1].tolist(), ref.tolist())
         self.line_files = {tt.__file__} | ({ct.__file__} if h.get('fine') else set())
         self.call_files = set() if h.get('fine') else {ct.__file__}
 
@@ -323,6 +325,10 @@ class Harness:
 def _sched(col, ctx, h, first):
     from mc import sched
     H = Harness(h, ctx['seed'])
+    if not H.seq_is_welch:
+        col.evaluations += 1
+        col.violation('C09/sched/free-running-result-not-welch', 'harness sizes=%s batch_size=%d: %s' % (h['sizes'], h['bs'], H.seq_msg), {'harness': h})
+        return
     seen_pre = {'n': 0}
     label = 'harness sizes=%s batch_size=%d runs=%d injected=%s' % (h['sizes'], h['bs'], h['runs'], h['inj'])
 
